@@ -37,11 +37,11 @@ void h_named_attribute(void)
 static int g_decl_level; static struct Dictionary_ *g_tab[3]; static struct Variable_ g_var[3];
 char DICT_type;
 void *DICTlookup(Dictionary d, char *name) { (void)name; for (int k = 0; k < 3; k++) if (d == (Dictionary)g_tab[k] && k == g_decl_level) { DICT_type = OBJ_VARIABLE; return &g_var[k]; } return 0; }
-void h_VARfind(void)
+static struct Scope_ en[3]; static struct Entity_ e3[3]; static struct Linked_List_ sup[3], sub[3]; static struct Link_ pm[3], p1[3], bm[3], b1[3]; static long tabs[3];
+static char nB[2] = "B", nE[2] = "E", nP[2] = "P", nQ[2] = "Q";
+static void mk_chain(void)
 {
-    IN(int, in_level);          /* who declares "x": 0 = the subtype B only, 1 = the entity E itself, 2 = its supertype P, 3 = nobody */
-    static struct Scope_ en[3]; static struct Entity_ e3[3]; static struct Linked_List_ sup[3], sub[3]; static struct Link_ pm[3], p1[3], bm[3], b1[3]; static long tabs[3];
-    __CPROVER_assume(in_level >= 0 && in_level <= 3);
+    en[0].symbol.name = nB; en[1].symbol.name = nE; en[2].symbol.name = nP;
     for (int k = 0; k < 3; k++) {
         en[k].u.entity = &e3[k]; en[k].type = OBJ_ENTITY; en[k].search_id = 0; g_tab[k] = (struct Dictionary_ *)&tabs[k]; en[k].symbol_table = (Dictionary)g_tab[k];
         sup[k].mark = &pm[k]; sub[k].mark = &bm[k]; e3[k].supertypes = &sup[k]; e3[k].subtypes = &sub[k];
@@ -49,8 +49,52 @@ void h_VARfind(void)
         if (k < 2) { pm[k].next = &p1[k]; pm[k].prev = &p1[k]; p1[k].next = &pm[k]; p1[k].prev = &pm[k]; p1[k].data = &en[k + 1]; } else { pm[k].next = &pm[k]; pm[k].prev = &pm[k]; }
         if (k > 0) { bm[k].next = &b1[k]; bm[k].prev = &b1[k]; b1[k].next = &bm[k]; b1[k].prev = &bm[k]; b1[k].data = &en[k - 1]; } else { bm[k].next = &bm[k]; bm[k].prev = &bm[k]; }
     }
+}
+void h_VARfind(void)
+{
+    IN(int, in_level);          /* who declares "x": 0 = the subtype B only, 1 = the entity E itself, 2 = its supertype P, 3 = nobody */
+    __CPROVER_assume(in_level >= 0 && in_level <= 3);
+    mk_chain();
     g_decl_level = in_level; __SCOPE_search_id = 7;
     Variable r = VARfind(&en[1], nx, 1);
     if (in_level == 1 || in_level == 2) __CPROVER_assert(r == &g_var[in_level], "C04 the strict attribute look-up finds an attribute declared by the entity or inherited from a supertype");
     else __CPROVER_assert(r == 0, "C04 the strict attribute look-up never returns an attribute that only a subtype declares, nor an undeclared name");
+}
+
+/* ---- ENTITYresolve_attr_ref: resolution of `SELF\\X.a` / `a` in UNIQUE rules, inverse and derived references.
+ *      C04: a reference that cannot be resolved is reported (once) and yields no attribute; C20: the report is positioned at the
+ *      offending symbol and quotes the attribute and the entity IN WHICH THE LOOK-UP FAILED (the named supertype for the qualified
+ *      form, the entity itself otherwise) ---- */
+#include <stdarg.h>
+static int g_rep_calls; static enum ErrorCode g_rep_code; static Symbol *g_rep_sym; static const char *g_rep_a1, *g_rep_a2;
+void ERRORreport_with_symbol(enum ErrorCode code, Symbol *sym, ...)
+{
+    va_list ap; va_start(ap, sym);
+    g_rep_calls++; g_rep_code = code; g_rep_sym = sym; g_rep_a1 = va_arg(ap, const char *);
+    g_rep_a2 = (code == IMPLICIT_DOWNCAST) ? 0 : va_arg(ap, const char *);
+    va_end(ap);
+}
+void h_attr_ref(void)
+{
+    IN(int, in_level); IN(int, in_group);      /* group: 0 = unqualified, 1 = SELF\E (the entity itself), 2 = SELF\P (its supertype), 3 = SELF\Q (unknown), 4 = SELF\B (a subtype) */
+    __CPROVER_assume(in_level >= 0 && in_level <= 3 && in_group >= 0 && in_group <= 4);
+    mk_chain();
+    g_decl_level = in_level; __SCOPE_search_id = 7; g_rep_calls = 0;
+    static Symbol aref, gref; aref.name = nx; aref.line = 42;
+    gref.name = in_group == 1 ? nE : in_group == 2 ? nP : in_group == 3 ? nQ : nB; gref.line = 41;
+    Variable r = ENTITYresolve_attr_ref(&en[1], in_group ? &gref : (Symbol *)0, &aref);
+    if (in_group == 0) {
+        if (in_level == 1 || in_level == 2) __CPROVER_assert(r == &g_var[in_level] && g_rep_calls == 0, "an attribute of the entity or of a supertype is resolved silently");
+        else if (in_level == 0) __CPROVER_assert(r == &g_var[0] && g_rep_calls == 1 && g_rep_code == IMPLICIT_DOWNCAST && g_rep_sym == &aref && g_rep_a1 == nB, "C20 an attribute found only in a subtype is resolved with one downcast warning at the reference, naming that subtype");
+        else __CPROVER_assert(r == 0 && g_rep_calls == 1 && g_rep_code == UNKNOWN_ATTR_IN_ENTITY && g_rep_sym == &aref && g_rep_a1 == nx && g_rep_a2 == nE,
+                              "C04/C20 an unqualified reference to an attribute nobody declares is reported once, at the reference, quoting the attribute and the entity");
+    } else if (in_group == 3 || in_group == 4) {
+        __CPROVER_assert(r == 0 && g_rep_calls == 1 && g_rep_code == UNKNOWN_SUPERTYPE && g_rep_sym == &gref && g_rep_a1 == gref.name && g_rep_a2 == nE,
+                         "C04/C20 a qualifier that is no supertype of the entity is reported once, at the qualifier, quoting it and the entity; nothing is resolved");
+    } else {
+        int lvl = in_group;     /* E = 1, P = 2: the entity whose own table is consulted */
+        if (in_level == lvl) __CPROVER_assert(r == &g_var[lvl] && g_rep_calls == 0, "a qualified reference to an attribute the named entity declares is resolved silently");
+        else __CPROVER_assert(r == 0 && g_rep_calls == 1 && g_rep_code == UNKNOWN_ATTR_IN_ENTITY && g_rep_sym == &aref && g_rep_a1 == nx && g_rep_a2 == (lvl == 1 ? nE : nP),
+                              "C04/C20 a qualified reference to an attribute the named entity does not declare is reported once, at the reference, quoting the attribute and THAT entity (where the look-up failed)");
+    }
 }
